@@ -128,6 +128,26 @@ CHECKS = {
                      'at most one report per message, an UPDATE body never disturbs an Established session, the known-good suite behind it is '
                      'handled as by a pristine agent, and a closed session recovers under the cooperative continuation.',
                 ref='7 C10', note=E1_NOTE),
+    'C06': dict(level='exploration', engine='E3',
+                technique='small-scope exhaustive input-shape enumeration: construct -> parse round trip against the reference\'s expected decoded form',
+                text='Every prefix length x address pool, short / long prefix lists, every attribute alone over its boundary pool (AS_PATH across '
+                     'the 255-octet boundary in both AS widths), all 2^12 attribute subsets and all value pairs of attribute pairs, in 2- and '
+                     '4-octet mode: Update.construct -> Update.parse must report no error and exactly the expected values; a constructor '
+                     'error is accepted only for inputs the reference\'s own range table rejects.',
+                ref='7 C06', note=E3_NOTE),
+    'C07': dict(level='exploration', engine='E3',
+                technique='small-scope exhaustive input-shape enumeration per address family: construct -> parse round trip against the reference\'s expected decoded form',
+                text='Per family (IPv6 unicast, IPv4/IPv6 labeled unicast, VPNv4/VPNv6, EVPN, IPv4 flowspec): every prefix length x address '
+                     'pool, label / RD / ESI / MAC / IP / next-hop pools, flowspec components x operators x value widths, 1-3 routes, MP_REACH '
+                     'and MP_UNREACH; Update.construct -> Update.parse must return exactly the expected value.',
+                ref='7 C07', note=E3_NOTE),
+    'C08': dict(level='exploration', engine='E3',
+                technique='small-scope exhaustive enumeration of constructor inputs with an independent structural walker over the produced bytes',
+                text='Every input of the C06 / C07 pools and of the construct-only pools (SR-TE policy NLRI, tunnel encapsulation, PMSI tunnel, '
+                     'IPv6 flowspec, NOTIFICATION, ROUTE-REFRESH, KEEPALIVE, OPEN) is handed to the agent\'s constructors; whatever bytes come '
+                     'back, and every message written by real sessions, is walked by a decoder-independent structural walker (lengths nest '
+                     'exactly, flag categories, extended-length bit, ceil(len/8) prefixes, <= 4096 octets).',
+                ref='7 C08', note=E3_NOTE),
 }
 
 NOT_YET = 'check not built yet in this session (see DESIGN.md section 7 for the plan); not claimed'
